@@ -548,4 +548,67 @@ theorem tooManyFracDigits_render (p : TsParts) (hh1 : p.hour1 = true → p.hour 
       simp
       omega
 
+/-! ### ',' in a rendered literal -/
+
+theorem render_has_comma (p : TsParts) (ds : Str) (h : p.frac = some (true, ds)) : ',' ∈ p.render := by
+  simp [TsParts.render, h, tsFracChars]
+
+theorem render_no_comma (p : TsParts) (hh1 : p.hour1 = true → p.hour < 10)
+    (hfr : ∀ comma ds, p.frac = some (comma, ds) → allDigits ds ∧ ds ≠ [])
+    (hnc : ∀ comma ds, p.frac = some (comma, ds) → comma = false) : ¬ ',' ∈ p.render := by
+  intro hc
+  have hd : ∀ w n, ',' ∈ padDigits w n → False := by
+    intro w n hm
+    exact digit_ne_comma (allDigits_padDigits w n ',' hm) rfl
+  simp only [TsParts.render, List.mem_append, List.mem_cons] at hc
+  rcases hc with hc | hc | hc | hc | hc | hc | hc | hc | hc | hc | hc | hc | hc
+  · exact hd _ _ hc
+  · revert hc; decide
+  · exact hd _ _ hc
+  · revert hc; decide
+  · exact hd _ _ hc
+  · revert hc; decide
+  · unfold TsParts.hourChars at hc
+    split at hc
+    · next hone =>
+      simp only [List.mem_singleton] at hc
+      exact digit_ne_comma (isDigit_digitChar (hh1 hone)) hc.symm
+    · exact hd _ _ hc
+  · revert hc; decide
+  · exact hd _ _ hc
+  · revert hc; decide
+  · exact hd _ _ hc
+  · cases hfrac : p.frac with
+    | none => rw [hfrac] at hc; cases hc
+    | some fv =>
+      obtain ⟨comma, ds⟩ := fv
+      have hcm := hnc comma ds hfrac
+      subst hcm
+      rw [hfrac] at hc
+      simp only [tsFracChars, Bool.false_eq_true, if_false, List.mem_cons] at hc
+      rcases hc with hc | hc
+      · revert hc; decide
+      · exact digit_ne_comma ((hfr false ds hfrac).1 ',' hc) rfl
+  · cases hz : p.zone with
+    | none => rw [hz] at hc; revert hc; decide
+    | some zv =>
+      obtain ⟨neg, hh, mm⟩ := zv
+      rw [hz] at hc
+      simp only [tsZoneChars, List.mem_cons, List.mem_append] at hc
+      rcases hc with hc | hc | hc | hc
+      · cases neg <;> (revert hc; decide)
+      · exact hd _ _ hc
+      · revert hc; decide
+      · exact hd _ _ hc
+
+/-- an RFC 3339 literal (two-digit hour) has at least twenty characters -/
+theorem render_length (p : TsParts) (h1 : p.hour1 = false) : 20 ≤ p.render.length := by
+  have hz : 1 ≤ (tsZoneChars p.zone).length := by
+    cases p.zone with
+    | none => simp [tsZoneChars]
+    | some v => obtain ⟨neg, hh, mm⟩ := v; simp [tsZoneChars]
+  simp only [TsParts.render, TsParts.hourChars, h1, Bool.false_eq_true, if_false, List.length_append,
+    List.length_cons, length_padDigits]
+  omega
+
 end WktJson
